@@ -30,6 +30,11 @@ pub fn by_id(id: &str) -> Option<&'static dyn Prop> {
 pub fn exec(ex: &Exec, st: &mut Stats) -> Out {
     let o = crate::dispatch::execute(ex);
     st.bump("executions");
+    if crate::runner::DIGEST_EVENTS.load(std::sync::atomic::Ordering::Relaxed) {
+        let mut h = Fnv::new();
+        h.bytes(format!("{:?}|{:?}|{:?}|{:?}|{}|{}|{}", o.events, o.results, o.remainders, o.sink_bytes, o.polls, o.injected, o.lib_allocs).as_bytes());
+        st.ev_digest = st.ev_digest.wrapping_add(h.finish());
+    }
     st.add("polls", o.polls);
     st.add("transport_calls", o.tcalls as u64);
     st.add("fired:suspension", o.injected);
